@@ -1,6 +1,9 @@
 package main
 
 import (
+	"go/ast"
+	"go/parser"
+	"go/token"
 	"os"
 	"path/filepath"
 	"regexp"
@@ -33,3 +36,7 @@ func min(a, b int) int {
 func tool_hash(parts ...string) string { return toolHash(parts...) }
 
 func toolHash(parts ...string) string { return tool.Hash(parts...) }
+
+func parseGo(src string) (*ast.File, error) {
+	return parser.ParseFile(token.NewFileSet(), "x.go", src, parser.ParseComments)
+}
